@@ -51,15 +51,32 @@ import (
 // path under test (full reply/notify, full remote write, full UpdateData) and prefer, right after a full
 // update, the shapes the model applies to the items in place (selector, identifier-less, delete elements).
 
+// Strengthening after the coverage audit (notes/audit/audit_C10C11C12.md):
+//
+//   - failing updates through EVERY path (local API, FeatureRemote.UpdateData persisting and not, reply, notify,
+//     remote write): every sixth step of a list history is an update the data model cannot apply (partial filter
+//     with a selector, optionally preceded by a delete filter with selector and/or elements that hits existing
+//     items, with an empty list or with no payload at all); if the stack reports failure the store fingerprint
+//     must be unchanged (c11FailingShape).
+//   - "later" also means: the peer announces its features again (with and without the feature holding the
+//     data), the peer's entity or the local entity is removed, the connection is removed. A third of the list
+//     cases (half of the race cases) end that way and every retained value is re-fingerprinted (c11Teardown).
+//   - event payloads and response-callback Data are fingerprinted INSIDE HandleEvent / inside the callback
+//     (c11Tap), so a payload the stack changes between the publication and the end of the same message
+//     handling differs at the next recheck.
+//   - a reader goroutine calls DataCopy of both stores while the history goroutine updates them (every
+//     fourth list case and every race case) and keeps the results: each must be one of the store states
+//     the only writer produced (fingerprint membership; c11Reader), and stays retained afterwards.
+//   - the number of list-typed functions is pinned (c11PinDomain).
 func init() {
 	nl := len(rig.DiscoverLists())
 	rig.Register(&rig.Check{
 		ID:    "C11",
 		Floor: 150,
 		Rule: "lists: case = (list function, block): histories of 6-10 updates drawn with C02's generator (all eight shapes, identifier domain 4; where the elements type of the list has struct-typed members, every second delete filter that names elements names SUB elements of one of them instead, shapes delete-elem-sub and delete-sel-elem-sub, whose effect on the data is not judged) through one of the paths remote-api (each update first tried with persist=false), " +
-			"reply/notify datagrams, local-api, remote write datagrams of a bound peer mixed with local updates; every DataCopy result (before and after each update), every data-change event payload and every value returned by UpdateData is retained with its fingerprint " +
+			"reply/notify datagrams, local-api, remote write datagrams of a bound peer mixed with local updates; every sixth update is one the model cannot apply (selector partial filter, alone or after a delete filter aimed at existing items, with an empty list or without payload) and must leave the store unchanged if it is reported as failed; every DataCopy result (before and after each update), every data-change event payload and every value returned by UpdateData is retained with its fingerprint " +
 			"and re-fingerprinted after every later update, at the end of the history and of the case; a third of the histories is BLIND (the monitor retains only event payloads, response-callback Data and values returned by UpdateData, starts from a full data set delivered through the path under test, " +
-			"prefers in-place shapes right after a full update and reads the store for the first time at the end of the history; store clauses are not judged there); each case also drives one function without partial support through failing partial and non-persisting updates. " +
+			"prefers in-place shapes right after a full update and reads the store for the first time at the end of the history; store clauses are not judged there); each case also drives one function without partial support through failing partial and non-persisting updates; event payloads and callback Data are fingerprinted at delivery (inside the handler); every fourth case runs a second goroutine calling DataCopy during the histories (each result must be a state the writer produced); a third of the cases end with a re-announcement, an entity removal or the removal of the connection, after which all retained values are re-checked. " +
 			"usecases: histories of 12-20 calls of AddUseCaseSupport/SetUseCaseAvailability/RemoveUseCaseSupport/RemoveAllUseCaseSupports on two entities and use-case replies of a peer, snapshots of nodeManagementUseCaseData retained. " +
 			"race: the same workloads with three reader goroutines encoding the retained values concurrently (race detector). " +
 			"A case is non-trivial if at least 200 fingerprint re-checks were made on at least 20 retained values and (lists) at least one non-persisting and one failed update were judged and at least two blind histories retained at least 10 values before their first read; distinct = distinct (part, function, sequence of (path, shape)).",
@@ -69,6 +86,9 @@ func init() {
 			"values returned by UpdateData and the Data of response callbacks are data handed to the application as well and are retained (signature prefixes result/, response-callback/)",
 			"re-fingerprinting a retained value is not an operation on the stack; DataCopy is (blind histories exist because a monitor that reads after every update can mask a lazily copying store)",
 			"a reader goroutine only reads values obtained before; the only writer to that memory can be the stack",
+			"an update of a shape the model cannot apply is only judged if the stack reports it as failed (what must fail is not part of the statement)",
+			"the concurrent DataCopy reader is judged on fingerprints only: its result must equal a store state the history goroutine (the only writer) read after one of its updates; it is parked during blind histories",
+			"86 functions of the Generic/NodeManagement features have a list-of-structs data type; 83 support partial updates and form the domain, three (directControlActivityListData, sensingListData, setpointConstraintsListData) have no UpdateList in the library and are pinned as such",
 		},
 		Parts: []rig.Part{
 			{Name: "lists", Cases: func(t rig.Tier) int {
@@ -110,17 +130,82 @@ type c11Keeper struct {
 
 	// response callback for reply datagrams (registered on the local client feature for the counter the
 	// replies reference): its Data is data handed to the application too
-	respCh      chan any
+	respCh      chan c11Delivered
 	respFn      func(api.ResponseMessage)
 	respPending bool
 	respOff     bool
+
+	tap *c11Tap    // core-level event handler that fingerprints data-change payloads INSIDE HandleEvent
+	rd  *c11Reader // concurrent DataCopy reader (nil: none)
+}
+
+// c11Delivered is a value together with the fingerprint taken at the moment the stack delivered it (inside
+// HandleEvent / inside the response callback), not when the monitor gets round to looking at it.
+type c11Delivered struct {
+	v  any
+	fp string
+	cl string
+}
+
+// c11Tap is subscribed at the core level next to the World's sink: core handlers run synchronously inside
+// Publish, so the fingerprint is what the application sees at delivery. A payload that the stack changes
+// between the publication and the end of the same message handling differs from it at the next recheck.
+type c11Tap struct {
+	mu     sync.Mutex
+	prefix string
+	evs    []c11Delivered
+}
+
+func (t *c11Tap) HandleEvent(p api.EventPayload) {
+	if p.EventType != api.EventTypeDataChange || p.Data == nil {
+		return
+	}
+	if t.prefix != "" && p.Ski != "" && !strings.HasPrefix(p.Ski, t.prefix) {
+		return
+	}
+	cl := "?"
+	if p.CmdClassifier != nil {
+		cl = string(*p.CmdClassifier)
+	}
+	d := c11Delivered{v: p.Data, fp: rig.CanonAny(p.Data), cl: cl}
+	t.mu.Lock()
+	t.evs = append(t.evs, d)
+	t.mu.Unlock()
+}
+
+func (t *c11Tap) take() []c11Delivered {
+	t.mu.Lock()
+	defer t.mu.Unlock()
+	r := t.evs
+	t.evs = nil
+	return r
+}
+
+// attach subscribes the delivery tap (spine.Events is process-global: always detach).
+func (k *c11Keeper) attach(tag string) {
+	k.tap = &c11Tap{prefix: tag}
+	_ = spine.VerifSubscribeCore(k.tap)
+}
+
+func (k *c11Keeper) detach() {
+	if k.tap != nil {
+		_ = spine.VerifUnsubscribeCore(k.tap)
+	}
 }
 
 func (k *c11Keeper) keep(src string, v any, when string) {
 	if v == nil {
 		return
 	}
-	e := &c11Kept{src: src, v: v, fp: rig.CanonAny(v), when: when}
+	k.keepFP(src, v, rig.CanonAny(v), when)
+}
+
+// keepFP retains v with a fingerprint that was taken earlier (at delivery).
+func (k *c11Keeper) keepFP(src string, v any, fp string, when string) {
+	if v == nil {
+		return
+	}
+	e := &c11Kept{src: src, v: v, fp: fp, when: when}
 	k.cur = append(k.cur, e)
 	k.kept++
 	if k.blind {
@@ -162,6 +247,15 @@ func (k *c11Keeper) endHistory() {
 // keepEvents retains the payloads of the data-change events published since the last call.
 func (k *c11Keeper) keepEvents(w *rig.World, when string) int {
 	n := 0
+	if k.tap != nil {
+		w.Core.Take()
+		for _, d := range k.tap.take() {
+			k.keepFP("event-"+d.cl, d.v, d.fp, when+", fingerprint taken inside HandleEvent")
+			k.c.Count("event_payloads_fingerprinted_at_delivery", 1)
+			n++
+		}
+		return n
+	}
 	for _, ev := range w.Core.Take() {
 		if ev.P.EventType != api.EventTypeDataChange || ev.P.Data == nil {
 			continue
@@ -174,6 +268,220 @@ func (k *c11Keeper) keepEvents(w *rig.World, when string) int {
 		n++
 	}
 	return n
+}
+
+// ---------------------------------------------------------------------------
+// concurrent DataCopy reader (audit gap 3)
+
+// c11Reader calls DataCopy of both stores concurrently with the updates of the history goroutine and keeps
+// every result with its fingerprint. The history goroutine (the only writer) notes the fingerprint of every
+// store state it produced (it reads the store after every update anyway). Verdict, on fingerprints only:
+// every value the reader obtained is one of the states the writer produced. The reader is parked during
+// blind histories (a DataCopy is an observer; the gate is a harness lock that is never held across an update).
+type c11Reader struct {
+	gate sync.RWMutex
+	on   bool
+	stop atomic.Bool
+	wg   sync.WaitGroup
+
+	mu     sync.Mutex
+	got    []c11Delivered             // cl = store name
+	states map[string]map[string]bool // store -> fingerprints of the states the writer produced (writer only)
+	reads  int
+}
+
+func (k *c11Keeper) startReader(lw *listWorld, seed int64) {
+	rd := &c11Reader{on: true, states: map[string]map[string]bool{"local": {}, "remote": {}}}
+	k.rd = rd
+	fn := lw.li.Fn
+	k.note("local", lw.local.DataCopy(fn))
+	k.note("remote", lw.remote.DataCopy(fn))
+	rr := rand.New(rand.NewSource(seed))
+	rd.wg.Add(1)
+	go func() {
+		defer rd.wg.Done()
+		defer func() {
+			if p := recover(); p != nil {
+				k.c.Violate("concurrent-datacopy/panic", "a DataCopy concurrent with updates (or fingerprinting its result) panicked: %v", p)
+			}
+		}()
+		for !rd.stop.Load() {
+			rd.gate.RLock()
+			if rd.on {
+				store, v := "local", any(nil)
+				if rr.Intn(2) == 0 {
+					v = lw.local.DataCopy(fn)
+				} else {
+					store, v = "remote", lw.remote.DataCopy(fn)
+				}
+				fp := rig.CanonAny(v)
+				rd.mu.Lock()
+				rd.reads++
+				if n := len(rd.got); n < 600 && (n == 0 || rd.got[n-1].fp != fp || rd.got[n-1].cl != store || rr.Intn(8) == 0) {
+					rd.got = append(rd.got, c11Delivered{v: v, fp: fp, cl: store})
+				}
+				rd.mu.Unlock()
+			}
+			rd.gate.RUnlock()
+			// pacing only (the verdict is on fingerprints): spread a bounded number of reads over the histories
+			if rd.reads >= 1200 {
+				return
+			}
+			time.Sleep(30 * time.Microsecond)
+		}
+	}()
+}
+
+// note records a store state the writer produced or found (called by the history goroutine only).
+func (k *c11Keeper) note(store string, v any) {
+	if k.rd != nil {
+		k.rd.states[store][rig.CanonAny(v)] = true
+	}
+}
+
+// pause parks (on=false) or resumes the reader; returns when no DataCopy of the reader is in flight.
+func (k *c11Keeper) pause(parked bool) {
+	if k.rd != nil {
+		k.rd.gate.Lock()
+		k.rd.on = !parked
+		k.rd.gate.Unlock()
+	}
+}
+
+// stopReader joins the reader and judges what it obtained; the values stay retained.
+func (k *c11Keeper) stopReader() {
+	rd := k.rd
+	if rd == nil {
+		return
+	}
+	rd.stop.Store(true)
+	rd.wg.Wait()
+	k.rd = nil
+	k.c.Count("concurrent_datacopy_calls", int64(rd.reads))
+	k.c.Count("concurrent_datacopy_results_judged", int64(len(rd.got)))
+	distinct := map[string]bool{}
+	for _, g := range rd.got {
+		k.checks++
+		distinct[g.cl+g.fp] = true
+		if !rd.states[g.cl][g.fp] {
+			k.c.Violate("concurrent-datacopy/not-a-state-the-writer-produced", "%s: a DataCopy of the %s store made concurrently with the updates returned a value that is none of the %d states the (only) writer produced\n got: %s",
+				k.fn, g.cl, len(rd.states[g.cl]), g.fp)
+		}
+		k.keepFP("datacopy-"+g.cl+"-concurrent", g.v, g.fp, "obtained by the concurrent reader")
+	}
+	k.c.Count("concurrent_datacopy_distinct_states_seen", int64(len(distinct)))
+}
+
+// ---------------------------------------------------------------------------
+// failing updates through every path (audit gap 1)
+
+// c11FailingShape builds an update the data model cannot apply: a partial filter WITH a selector needs an
+// item carrying the values, and there is none (empty list, or no payload at all: nilPayload). Variants
+// combine it with a delete filter (selector / elements), which the model processes first: a stack that keeps
+// the half-done work of an update it then reports as failed has deleted something. The selectors aim at
+// identifiers that exist in the store. Whether the stack reports failure is its business; IF it does, the
+// store must be as it was.
+func c11FailingShape(r *rand.Rand, li *rig.ListInfo, store any) (u rig.Update, nilPayload bool, ok bool) {
+	if !li.SelCoversKeys || len(li.Keys) == 0 {
+		return u, false, false
+	}
+	pick := func() int {
+		if ids := c11PresentIds(li, li.Items(store)); len(ids) > 0 && r.Intn(5) > 0 {
+			return ids[r.Intn(len(ids))]
+		}
+		return r.Intn(c02Dom)
+	}
+	u = rig.Update{SelKey: pick(), DelSel: -1}
+	kind := "partial-sel"
+	switch x := r.Intn(4); {
+	case x == 1:
+		u.DelSel = pick()
+		kind = "del-sel+partial-sel"
+	case x == 2 && li.ElT != nil && len(li.NonKeyPtr) > 0:
+		u.DelElem = []int{li.NonKeyPtr[r.Intn(len(li.NonKeyPtr))]}
+		kind = "del-elem+partial-sel"
+	case x == 3 && li.ElT != nil && len(li.NonKeyPtr) > 0:
+		u.DelSel = pick()
+		u.DelElem = []int{li.NonKeyPtr[r.Intn(len(li.NonKeyPtr))]}
+		kind = "del-sel-elem+partial-sel"
+	}
+	nilPayload = r.Intn(3) == 0
+	if nilPayload {
+		u.Kind = "no-payload/" + kind
+	} else {
+		u.Kind = "empty-list/" + kind
+	}
+	if _, _, fok := li.Filters(u); !fok {
+		return u, false, false
+	}
+	return u, nilPayload, true
+}
+
+// wireNoPayload builds a datagram whose command names the function and carries the filters of u but no data.
+func (lw *listWorld) wireNoPayload(u rig.Update, cl model.CmdClassifierType, src, dst *model.FeatureAddressType) ([]byte, model.MsgCounterType, error) {
+	mc := lw.p.NextCounter()
+	fp, fd, _ := lw.li.Filters(u)
+	fn := lw.li.Fn
+	cmd := model.CmdType{Function: &fn}
+	if fd != nil {
+		cmd.Filter = append(cmd.Filter, *fd)
+	}
+	if fp != nil {
+		cmd.Filter = append(cmd.Filter, *fp)
+	}
+	var ref *model.MsgCounterType
+	if cl == model.CmdClassifierTypeReply {
+		ref = util.Ptr(c11ReplyRef)
+	}
+	b, err := json.Marshal(rig.Datagram(cl, src, dst, mc, true, ref, cmd))
+	return b, mc, err
+}
+
+// ---------------------------------------------------------------------------
+// what comes "later" than the updates (audit gap 2)
+
+var c11Teardowns = []string{"re-announce", "re-announce-without-the-server-feature", "remote-entity-removed", "local-entity-removed", "connection-removed"}
+
+// c11Teardown ends a case with one of the operations that dispose of features and their function data:
+// the peer announces its features again (the stack rebuilds the remote features), the peer's entity or the
+// local entity is removed, or the connection goes away. Whatever the stack does with the data it held,
+// every value handed out earlier stays as it was. Both stores are filled and read once more right before.
+func c11Teardown(c *rig.Ctx, lw *listWorld, k *c11Keeper, kind string) {
+	li, fn := lw.li, lw.li.Fn
+	k.hist = []string{"teardown " + kind}
+	for i := 0; i < 2; i++ {
+		u, _ := li.GenUpdate(c.Rand, 0, c02Dom)
+		for try := 0; try < 4 && len(u.Items) == 0; try++ {
+			u, _ = li.GenUpdate(c.Rand, 0, c02Dom)
+		}
+		if i == 0 {
+			ret, _ := lw.remote.UpdateData(true, fn, li.MkList(rig.CloneItems(u.Items)), nil, nil)
+			k.keep("result", ret, "full update before the teardown")
+			k.keep("datacopy-remote", lw.remote.DataCopy(fn), "before the teardown")
+		} else {
+			lw.local.SetData(fn, li.MkList(rig.CloneItems(u.Items)))
+			k.keep("datacopy-local", lw.local.DataCopy(fn), "before the teardown")
+		}
+		k.hist = append(k.hist, "full "+u.String())
+	}
+	lw.p.Tap.Take()
+	switch kind {
+	case "re-announce":
+		lw.p.Announce(listFeats(lw.T))
+	case "re-announce-without-the-server-feature":
+		lw.p.Announce(listFeats(lw.T)[:2])
+	case "remote-entity-removed":
+		lw.p.NotifyDiscovery(true, lw.p.Discovery(nil, nil, [][]uint{{1}}))
+	case "local-entity-removed":
+		lw.w.Local.RemoveEntity(lw.localCli.Entity())
+	case "connection-removed":
+		lw.w.Local.RemoveRemoteDeviceConnection(lw.p.Ski)
+	}
+	k.keepEvents(lw.w, "event of the teardown")
+	c.Count("teardown:"+kind, 1)
+	k.recheck(k.cur, "teardown/"+kind)
+	k.recheck(k.old, "teardown/"+kind)
+	k.endHistory()
 }
 
 // ---------------------------------------------------------------------------
@@ -210,13 +518,75 @@ func c11Lists(c *rig.Ctx) {
 		return
 	}
 	defer lw.close()
+	if c.Index == 0 {
+		c11PinDomain(c, lists)
+	}
 	k := &c11Keeper{c: c, fn: li.Fn}
+	k.attach(c.Tag())
+	defer k.detach()
+	// every fourth case: a second goroutine calls DataCopy while the histories run
+	if (c.Index/len(lists)+c.Index)%4 == 1 {
+		k.startReader(lw, c.Rand.Int63())
+	}
 	st := c11RunLists(c, lw, k, c.Pick(30, 60))
+	k.stopReader()
 	c11NonListHistory(c, lw, k, &st)
+	// a third of the cases end with something that disposes of features and their data
+	if x := c.Rand.Intn(3 * len(c11Teardowns)); x < len(c11Teardowns) {
+		c11Teardown(c, lw, k, c11Teardowns[x])
+		st.shapeSeq = append(st.shapeSeq, ("|teardown:" + c11Teardowns[x])...)
+	}
 	k.recheck(k.old, "end-of-case")
 	c11Finish(c, k, &st, string(li.Fn))
 	c.Seen("functions", string(li.Fn))
 	c.NonTrivial(k.checks >= 200 && k.kept >= 20 && st.nonPersist > 0 && (st.failed > 0 || !lw.bound) && st.blind >= 2 && k.blindKept >= 10)
+}
+
+// c11PinnedLists is the number of list-typed functions (data type with a list of structs, registered for the
+// Generic or the NodeManagement feature) of the data model this check was built against. The domain itself is
+// learnt from the library (SupportsPartialWrite); a type that loses its UpdateList would silently leave it.
+const c11PinnedLists = 83
+
+func c11PinDomain(c *rig.Ctx, lists []rig.ListInfo) {
+	in := map[model.FunctionType]bool{}
+	for _, l := range lists {
+		in[l.Fn] = true
+	}
+	var lost []string
+	structural := 0
+	for _, ft := range []model.FeatureTypeType{model.FeatureTypeTypeGeneric, model.FeatureTypeTypeNodeManagement} {
+		for _, fd := range spine.CreateFunctionData[api.FunctionDataCmdInterface](ft) {
+			T := reflect.TypeOf(fd.DataCopyAny()).Elem()
+			isList := false
+			for i := 0; T.Kind() == reflect.Struct && i < T.NumField(); i++ {
+				if f := T.Field(i); f.Type.Kind() == reflect.Slice && f.Type.Elem().Kind() == reflect.Struct && strings.HasSuffix(T.Name(), "ListDataType") {
+					isList = true
+				}
+			}
+			if isList {
+				structural++
+				if !in[fd.FunctionType()] {
+					lost = append(lost, string(fd.FunctionType()))
+				}
+			}
+		}
+	}
+	c.Count("list_functions_in_domain", int64(len(lists)))
+	c.Count("list_functions_by_structure", int64(structural))
+	// three list-shaped types have no UpdateList in the library this check was built against (partial updates of
+	// them fail; what must be supported is not C11's subject): they are pinned too
+	known := map[string]bool{"directControlActivityListData": true, "sensingListData": true, "setpointConstraintsListData": true}
+	var kept []string
+	for _, l := range lost {
+		if !known[l] {
+			kept = append(kept, l)
+		}
+	}
+	lost = kept
+	if len(lists) < c11PinnedLists || len(lost) > 0 {
+		c.Violate("domain/list-function-left-the-domain", "the check was built for %d list-typed functions, the library now offers partial support for %d (by structure: %d); without partial support: %v",
+			c11PinnedLists, len(lists), structural, lost)
+	}
 }
 
 type c11Stats struct {
@@ -287,7 +657,9 @@ func c11RunLists(c *rig.Ctx, lw *listWorld, k *c11Keeper, histories int) (st c11
 			case x < 13 || !canWrite:
 				bp = "datagram"
 			}
+			k.pause(true)
 			c11BlindHistory(c, lw, k, &st, bp)
+			k.pause(false)
 			if len(st.blindSample) == 0 && len(k.hist) > 1 && !strings.HasPrefix(k.hist[1], "start: no data") {
 				st.blindSample = append([]string(nil), k.hist...)
 			}
@@ -310,10 +682,10 @@ func c11RunLists(c *rig.Ctx, lw *listWorld, k *c11Keeper, histories int) (st c11
 		}
 		remoteStore := path == "remote-api" || path == "datagram"
 		src := "datacopy-local"
-		read := func() any { return lw.local.DataCopy(fn) }
+		read := func() any { v := lw.local.DataCopy(fn); k.note("local", v); return v }
 		if remoteStore {
 			src = "datacopy-remote"
-			read = func() any { return lw.remote.DataCopy(fn) }
+			read = func() any { v := lw.remote.DataCopy(fn); k.note("remote", v); return v }
 		}
 		k.hist = []string{"path " + path}
 		st.shapeSeq = append(st.shapeSeq, "|"+path[:4]...)
@@ -344,12 +716,26 @@ func c11RunLists(c *rig.Ctx, lw *listWorld, k *c11Keeper, histories int) (st c11
 			if !ok {
 				continue
 			}
-			c11Nest(c, li, &u)
+			before := read()
+			// every sixth step: an update the model cannot apply (through whatever path this history uses)
+			failingShape, nilPayload := false, false
+			if r.Intn(6) == 0 {
+				if fu, np, fok := c11FailingShape(r, li, before); fok {
+					u, nilPayload, failingShape = fu, np, true
+				}
+			}
+			if !failingShape {
+				c11Nest(c, li, &u)
+			}
 			st.shapeSeq = append(st.shapeSeq, ("," + u.Kind)...)
 			fp, fd, _ := li.Filters(u)
-			mk := func() any { return li.MkList(rig.CloneItems(u.Items)) }
+			mk := func() any {
+				if nilPayload {
+					return typedNil(li)
+				}
+				return li.MkList(rig.CloneItems(u.Items))
+			}
 			by := path + "/" + u.Kind
-			before := read()
 			s0 := rig.CanonAny(before)
 			k.keep(src, before, fmt.Sprintf("before step %d", s))
 			failed, errText := false, ""
@@ -397,7 +783,14 @@ func c11RunLists(c *rig.Ctx, lw *listWorld, k *c11Keeper, histories int) (st c11
 				} else if r.Intn(2) == 0 {
 					cl = model.CmdClassifierTypeReply
 				}
-				b, _, mc, e := lw.wire(u, cl, srcA, dstA, true)
+				var b []byte
+				var mc model.MsgCounterType
+				var e error
+				if nilPayload {
+					b, mc, e = lw.wireNoPayload(u, cl, srcA, dstA)
+				} else {
+					b, _, mc, e = lw.wire(u, cl, srcA, dstA, true)
+				}
 				if e != nil {
 					c.Violate("harness-wire", "%v", e)
 					continue
@@ -419,6 +812,10 @@ func c11RunLists(c *rig.Ctx, lw *listWorld, k *c11Keeper, histories int) (st c11
 			}
 			k.hist = append(k.hist, step+" "+u.String()+map[bool]string{true: " -> FAILED " + errText, false: ""}[failed])
 			after := read()
+			if failingShape {
+				c.Count(fmt.Sprintf("unappliable_update:%s reported_failed=%v", step, failed), 1)
+				c.Seen("unappliable_shapes", u.Kind)
+			}
 			if failed {
 				st.failed++
 				c.Count("failed:"+path, 1)
@@ -453,9 +850,16 @@ func (k *c11Keeper) armResponse(lw *listWorld) {
 		return
 	}
 	if k.respFn == nil {
-		ch := make(chan any, 8)
+		ch := make(chan c11Delivered, 8)
 		k.respCh = ch
-		k.respFn = func(m api.ResponseMessage) { ch <- m.Data }
+		// the fingerprint is taken inside the callback, i.e. at delivery
+		k.respFn = func(m api.ResponseMessage) {
+			d := c11Delivered{v: m.Data}
+			if m.Data != nil {
+				d.fp = rig.CanonAny(m.Data)
+			}
+			ch <- d
+		}
 	}
 	if err := lw.localCli.AddResponseCallback(c11ReplyRef, k.respFn); err == nil {
 		k.respPending = true
@@ -468,9 +872,9 @@ func (k *c11Keeper) collectResponse(when string) {
 		return
 	}
 	select {
-	case v := <-k.respCh:
+	case d := <-k.respCh:
 		k.respPending = false
-		k.keep("response-callback", v, when)
+		k.keepFP("response-callback", d.v, d.fp, when+", fingerprint taken inside the callback")
 		k.c.Count("response_callback_payloads_retained", 1)
 	case <-time.After(30 * time.Second):
 		// watchdog only: whether callbacks fire is C14's subject
@@ -652,9 +1056,13 @@ func c11BlindHistory(c *rig.Ctx, lw *listWorld, k *c11Keeper, st *c11Stats, path
 	k.recheck(k.cur, "blind/"+path+"/end-of-history-before-the-first-read")
 	k.blind = false
 	if path == "remote-write" {
-		k.keep("datacopy-local", lw.local.DataCopy(fn), "first read, at the end of the blind history")
+		v := lw.local.DataCopy(fn)
+		k.note("local", v)
+		k.keep("datacopy-local", v, "first read, at the end of the blind history")
 	} else {
-		k.keep("datacopy-remote", lw.remote.DataCopy(fn), "first read, at the end of the blind history")
+		v := lw.remote.DataCopy(fn)
+		k.note("remote", v)
+		k.keep("datacopy-remote", v, "first read, at the end of the blind history")
 	}
 }
 
@@ -744,6 +1152,8 @@ func c11UseCases(c *rig.Ctx) {
 	w := rig.NewWorld(c.Tag())
 	defer w.Close()
 	k := &c11Keeper{c: c, fn: model.FunctionTypeNodeManagementUseCaseData}
+	k.attach(c.Tag())
+	defer k.detach()
 	st := c11RunUseCases(c, w, k, c.Pick(6, 10))
 	k.recheck(k.old, "end-of-case")
 	c11Finish(c, k, &st, "usecases")
@@ -893,6 +1303,8 @@ func c11Race(c *rig.Ctx) {
 			w := rig.NewWorld(c.Tag())
 			defer w.Close()
 			k = &c11Keeper{c: c, fn: model.FunctionTypeNodeManagementUseCaseData, pool: pool}
+			k.attach(c.Tag())
+			defer k.detach()
 			st = c11RunUseCases(c, w, k, c.Pick(4, 6))
 			what = "usecases"
 			return
@@ -921,7 +1333,17 @@ func c11Race(c *rig.Ctx) {
 		}
 		defer lw.close()
 		k = &c11Keeper{c: c, fn: li.Fn, pool: pool}
+		k.attach(c.Tag())
+		defer k.detach()
+		// a reader that calls DataCopy while the updates run (race detector + membership verdict)
+		k.startReader(lw, c.Rand.Int63())
 		st = c11RunLists(c, lw, k, c.Pick(12, 20))
+		k.stopReader()
+		// the encoders are still running: half of the cases end with a teardown
+		if x := c.Rand.Intn(2 * len(c11Teardowns)); x < len(c11Teardowns) {
+			c11Teardown(c, lw, k, c11Teardowns[x])
+			st.shapeSeq = append(st.shapeSeq, ("|teardown:" + c11Teardowns[x])...)
+		}
 		what = string(li.Fn)
 	}()
 	if k == nil {
